@@ -2,6 +2,7 @@ package c11
 
 import (
 	"fmt"
+	"sync"
 	"testing"
 
 	"github.com/deadsy/sdfx/render"
@@ -125,6 +126,45 @@ func runHistory(h *history) *delivery {
 				d.addTri(triVals(t))
 			}
 		}
+	case "collector3":
+		// sdf.WriteTriangles, the in-memory collector behind ToTriangles, used directly: every pass is a
+		// stream of its own (channel, buffer, wait group) into the SAME slice - a mesh assembled from
+		// several parts; the slice may already hold items when the first stream is opened
+		var mesh []*sdf.Triangle3
+		id := 0
+		for pi, p := range h.Passes {
+			if pi == 0 && p.Closes > 1 {
+				// pre-filled by the caller: the first pass's items are put there directly
+				for _, b := range p.Batches {
+					for k := 0; k < b; k++ {
+						mesh = append(mesh, triOf(id))
+						id++
+					}
+				}
+				continue
+			}
+			var wg sync.WaitGroup
+			ch := sdf.WriteTriangles(&wg, &mesh)
+			w := sdf.NewTriangle3Buffer(ch)
+			for _, b := range p.Batches {
+				batch := make([]*sdf.Triangle3, b)
+				for k := range batch {
+					batch[k] = triOf(id)
+					id++
+				}
+				w.Write(batch)
+			}
+			w.Close()
+			close(ch)
+			wg.Wait()
+		}
+		for _, t := range mesh {
+			if t == nil {
+				d.foreign = append(d.foreign, "nil")
+				continue
+			}
+			d.addTri(triVals(t))
+		}
 	case "ToDXF":
 		path := tmpPath("dxf")
 		quiet(func() { render.ToDXF(nil, path, hist2{h}) })
@@ -219,7 +259,7 @@ func TestWriterReuse(t *testing.T) {
 	}
 	rapid.Check(t, func(t *rapid.T) {
 		h := &history{}
-		h.Sink = rapid.SampledFrom([]string{"ToTriangles", "ToSTL", "buffer3", "ToDXF", "buffer2"}).Draw(t, "sink")
+		h.Sink = rapid.SampledFrom([]string{"ToTriangles", "ToSTL", "buffer3", "collector3", "ToDXF", "buffer2"}).Draw(t, "sink")
 		h.Dim = 3
 		T := T3
 		if h.Sink == "ToDXF" || h.Sink == "buffer2" {
